@@ -18,7 +18,7 @@ import (
 // start and end time of every call are recorded.
 type verifListScript struct {
 	mu      sync.Mutex
-	pattern []int // 0 success, 1 transport error, 2 status 500, 3 malformed JSON, 4 status 404, 5/6/7 status 500/503/401 with an empty body, 8 success with an empty body
+	pattern []int // 0 success, 1 transport error, 2 status 500, 3 malformed JSON, 4 status 404, 5/6/7 status 500/503/401 with an empty body, 8 success with an empty body, 9/10 status 200 whose body breaks off after 0 / 3 bytes
 	starts  []time.Time
 	ends    []time.Time
 	cancel  context.CancelFunc
@@ -63,8 +63,34 @@ func (s *verifListScript) RoundTrip(r *http.Request) (*http.Response, error) {
 		return mk(401, ""), nil
 	case 8:
 		return mk(200, ""), nil
+	case 9:
+		// 200, then the connection dies before any body byte (what net/http reports for a truncated body)
+		resp := mk(200, "")
+		resp.Body = io.NopCloser(&verifCutBody{err: io.ErrUnexpectedEOF})
+		resp.ContentLength = 12
+		return resp, nil
+	case 10:
+		// 200, a few body bytes, then the same
+		resp := mk(200, "")
+		resp.Body = io.NopCloser(&verifCutBody{data: []byte(`["a`), err: io.ErrUnexpectedEOF})
+		resp.ContentLength = 12
+		return resp, nil
 	}
 	return mk(200, "[]"), nil
+}
+
+type verifCutBody struct {
+	data []byte
+	err  error
+}
+
+func (b *verifCutBody) Read(p []byte) (int, error) {
+	if len(b.data) > 0 {
+		n := copy(p, b.data)
+		b.data = b.data[n:]
+		return n, nil
+	}
+	return 0, b.err
 }
 
 // TestVerifC08Loop drives the real pollForNewRequests with scripted list-call
@@ -88,6 +114,7 @@ func TestVerifC08Loop(t *testing.T) {
 	patterns = append(patterns, []int{0, 1, 1, 1, 0, 1, 1, 1, 1, 1, 1, 0})
 	patterns = append(patterns, []int{5, 5, 5, 6, 7, 5, 8, 6, 6, 0})
 	patterns = append(patterns, []int{2, 8, 1, 1, 8, 8, 7, 7, 7, 7})
+	patterns = append(patterns, []int{9, 9, 9, 9, 10, 10, 9, 0, 10, 9, 9, 0})
 	nrand := 10
 	if verifThorough() {
 		nrand = 60
@@ -100,7 +127,7 @@ func TestVerifC08Loop(t *testing.T) {
 			if rng.intn(4) == 0 {
 				p[j] = []int{0, 0, 8}[rng.intn(3)]
 			} else {
-				p[j] = 1 + rng.intn(7)
+				p[j] = []int{1, 2, 3, 4, 5, 6, 7, 9, 10}[rng.intn(9)]
 			}
 		}
 		patterns = append(patterns, p)
